@@ -63,53 +63,56 @@ TNet == /\ NetDue /\ Silent
            ELSE Deliver2(MinPair(Pend2)[1], MinPair(Pend2)[2])
 
 KeySet(s) == {<<k[1], k[2], k[3]>> : k \in SeqToSet(s)}
+\* a logged observation must equal the model's value; the name of the first one that does not is reported
+Rel(name, pred) == CheckInv(name, pred)
 TReset == IsEvent("Reset") /\ l = 1 /\ UNCHANGED vars
 TStart == /\ IsEvent("Start") /\ ~FULL /\ Quiet /\ Ev.i \in Nodes
           /\ Len(Ev.c) = par.nv
           /\ Start(Ev.i, [v \in Vals |-> Ev.c[v + 1]])
-          /\ Ev.ok
-          /\ KeySet(Ev.casts) = {<<v, Ev.i, 0>> : v \in Vals}
-          /\ KeySet(Ev.p2p) = {<<v, Ev.i, j>> : v \in Vals, j \in Nodes \ {Ev.i}}
-          /\ SeqToSet(Ev.ncomm) = {Len(c1'[Ev.i][v]) : v \in Vals}
-          /\ Ev.feld = \A v \in Vals, j \in Nodes \ {Ev.i} : FeldmanOK(c1'[Ev.i][v], p1'[Ev.i][j][v])
-          /\ Ev.ids = \A v \in Vals, j \in Nodes \ {Ev.i} : p1'[Ev.i][j][v].id = j
+          /\ Rel("Start.ok", Ev.ok)
+          /\ Rel("Start.casts", KeySet(Ev.casts) = {<<v, Ev.i, 0>> : v \in Vals})
+          /\ Rel("Start.p2p", KeySet(Ev.p2p) = {<<v, Ev.i, j>> : v \in Vals, j \in Nodes \ {Ev.i}})
+          /\ Rel("Start.ncomm", SeqToSet(Ev.ncomm) = {Len(c1'[Ev.i][v]) : v \in Vals})
+          /\ Rel("Start.feld", Ev.feld = \A v \in Vals, j \in Nodes \ {Ev.i} : FeldmanOK(c1'[Ev.i][v], p1'[Ev.i][j][v]))
+          /\ Rel("Start.ids", Ev.ids = \A v \in Vals, j \in Nodes \ {Ev.i} : p1'[Ev.i][j][v].id = j)
 TD1C == IsEvent("D1C") /\ ~P2P /\ Ev.i \in Nodes /\ Ev.j \in Nodes /\ Deliver1C(Ev.i, Ev.j)
 TD1P == IsEvent("D1P") /\ ~P2P /\ Ev.i \in Nodes /\ Ev.j \in Nodes /\ Deliver1P(Ev.i, Ev.j)
 TD2 == IsEvent("D2") /\ ~P2P /\ Ev.i \in Nodes /\ Ev.j \in Nodes /\ Deliver2(Ev.i, Ev.j)
 TRet1 == /\ IsEvent("Ret1") /\ Quiet /\ Ev.j \in Nodes /\ Ret1(Ev.j)
-         /\ Ev.ok = (phase'[Ev.j] = "r2")
-         /\ Ev.ok => KeySet(Ev.casts) = {<<v, Ev.j, 0>> : v \in Vals}
+         /\ Rel("Ret1.ok", Ev.ok = (phase'[Ev.j] = "r2"))
+         /\ Rel("Ret1.casts", Ev.ok => KeySet(Ev.casts) = {<<v, Ev.j, 0>> : v \in Vals})
 TRet2 == /\ IsEvent("Ret2") /\ Quiet /\ Ev.j \in Nodes /\ Ret2(Ev.j)
-         /\ Ev.ok = (phase'[Ev.j] = "done")
+         /\ Rel("Ret2.ok", Ev.ok = (phase'[Ev.j] = "done"))
          /\ ((\A k \in Nodes : phase'[k] = "done") => Trace[TLen].ev = "Check")   \* a completed ceremony is examined
-         /\ Len(Ev.pskeys) = par.nv
-         /\ \A v \in Vals : SeqToSet(Ev.pskeys[v + 1]) = DOMAIN res'[Ev.j][v].ps
+         /\ Rel("Ret2.results", Len(Ev.pskeys) = par.nv)
+         /\ Rel("Ret2.pskeys", \A v \in Vals : SeqToSet(Ev.pskeys[v + 1]) = DOMAIN res'[Ev.j][v].ps)
 \* the witness's joint polynomial of validator v has degree exactly t-1
 Generic(v) == LeadSum(v) # 0
 TCheck == /\ IsEvent("Check") /\ l = TLen /\ Quiet /\ AllDone /\ UNCHANGED vars
           /\ Len(Ev.gkeq) = par.nv /\ Len(Ev.pseq) = par.nv /\ Len(Ev.own) = par.n
-          /\ \A v \in Vals : Ev.gkeq[v + 1] = GkEq(v) /\ Ev.pseq[v + 1] = PsEq(v)
-          /\ \A j \in Nodes : Len(Ev.own[j]) = par.nv /\ \A v \in Vals : Ev.own[j][v + 1] = Own(j, v)
+          /\ Rel("Check.gkeq", \A v \in Vals : Ev.gkeq[v + 1] = GkEq(v))
+          /\ Rel("Check.pseq", \A v \in Vals : Ev.pseq[v + 1] = PsEq(v))
+          /\ Rel("Check.own", \A j \in Nodes : Len(Ev.own[j]) = par.nv /\ \A v \in Vals : Ev.own[j][v + 1] = Own(j, v))
           /\ \A v \in Vals : \E x \in DOMAIN Ev.subs : Ev.subs[x].v = v         \* every validator was examined
           /\ \A x \in DOMAIN Ev.subs :
                LET e == Ev.subs[x]  S == SeqToSet(e.S)  k == e.S[1]
                    x0 == CHOOSE y \in DOMAIN Ev.subs : Ev.subs[y].v = e.v /\ \A z \in DOMAIN Ev.subs : Ev.subs[z].v = e.v => y <= z
                IN /\ e.v \in Vals /\ S \subseteq Nodes /\ Cardinality(S) = par.t /\ Len(e.S) = par.t
-                  /\ e.rec = RecPk(k, e.v, S)
-                  /\ e.psig = PartialsOK(k, e.v, S, H)
-                  /\ e.sig = SigOK(k, e.v, S, H)
-                  /\ e.same = (AggSig(e.v, S, H) = AggSig(e.v, SeqToSet(Ev.subs[x0].S), H))
+                  /\ Rel("Check.rec", e.rec = RecPk(k, e.v, S))
+                  /\ Rel("Check.psig", e.psig = PartialsOK(k, e.v, S, H))
+                  /\ Rel("Check.sig", e.sig = SigOK(k, e.v, S, H))
+                  /\ Rel("Check.same", e.same = (AggSig(e.v, S, H) = AggSig(e.v, SeqToSet(Ev.subs[x0].S), H)))
           /\ \A x \in DOMAIN Ev.below :
                LET e == Ev.below[x]  S == SeqToSet(e.S)  k == e.S[1]
                IN /\ e.v \in Vals /\ S \subseteq Nodes /\ Cardinality(S) = par.t - 1
-                  /\ Generic(e.v) => e.sig = SigOK(k, e.v, S, H)
+                  /\ Rel("Check.below", Generic(e.v) => e.sig = SigOK(k, e.v, S, H))
 AllTrue(s) == \A x \in DOMAIN s : s[x]
 TFull == /\ IsEvent("Full") /\ FULL /\ Quiet /\ AllDone /\ UNCHANGED vars
          /\ Len(Ev.run) = par.n /\ Len(Ev.hashes) = par.n /\ Len(Ev.sigs) = par.n
-         /\ AllTrue(Ev.run) /\ AllTrue(Ev.hashes)
-         /\ AllTrue(Ev.sigs) = \A v \in Vals, k \in Nodes : PartialsOK(k, v, Nodes, H) /\ RecPk(k, v, 1..par.t)
-         /\ Ev.samelock = \A v \in Vals : GkEq(v) /\ PsEq(v)
-         /\ Ev.deposit = \A v \in Vals, k \in Nodes : SigOK(k, v, Nodes, H)
+         /\ Rel("Full.run", AllTrue(Ev.run)) /\ Rel("Full.hashes", AllTrue(Ev.hashes))
+         /\ Rel("Full.sigs", AllTrue(Ev.sigs) = \A v \in Vals, k \in Nodes : PartialsOK(k, v, Nodes, H) /\ RecPk(k, v, 1..par.t))
+         /\ Rel("Full.samelock", Ev.samelock = \A v \in Vals : GkEq(v) /\ PsEq(v))
+         /\ Rel("Full.deposit", Ev.deposit = \A v \in Vals, k \in Nodes : SigOK(k, v, Nodes, H))
 TraceNext == TReset \/ TNet \/ TAuto \/ TFull \/ TStart \/ TD1C \/ TD1P \/ TD2 \/ TRet1 \/ TRet2 \/ TCheck
 TraceSpec == TraceInit /\ [][TraceNext]_tvars
 Mark == /\ CheckInv("TypeOK", TypeOK) /\ CheckInv("NoFailure", NoFailure) /\ CheckInv("ThresholdIsT", ThresholdIsT)
